@@ -494,6 +494,11 @@ class CallMixin:
             if m is not None:
                 self.trusted.add('builtin dict.%s' % name)
                 return m(recv, args, kwargs, st, node)
+        if cls.kind == 'set':
+            m = getattr(self, 'sm_' + name.strip('_'), None)
+            if m is not None:
+                self.trusted.add('builtin set.%s' % name)
+                return m(recv, args, kwargs, st, node)
         if cls.kind == 'list':
             m = getattr(self, 'lm_' + name.strip('_'), None)
             if m is not None:
@@ -637,6 +642,41 @@ class CallMixin:
         e = z3.ForAll([k], z3.And(z3.Select(dd, k) == z3.Select(od, k),
                                   z3.Implies(z3.Select(dd, k), z3.Select(dv, k) == z3.Select(ov, k))))
         return [(SBool(e), st)]
+
+    # sets
+    def sm_add(self, d, args, kwargs, st, node):
+        s = st.copy()
+        k = self.coerce(s, args[0], d.cls.k)
+        dom, size = self.hload(s, d, 'dom'), self.hload(s, d, 'size')
+        self.hstore(s, d, 'size', z3.If(z3.Select(dom, k), size, size + 1))
+        self.hstore(s, d, 'dom', z3.Store(dom, k, z3.BoolVal(True)))
+        return [(SNone(), s)]
+
+    def sm_remove(self, d, args, kwargs, st, node):
+        k = self.coerce(st, args[0], d.cls.k)
+        out = []
+        for side, s in self.fork(st, z3.Select(self.hload(st, d, 'dom'), k), 'member'):
+            if side:
+                s = s.copy()
+                self.hstore(s, d, 'dom', z3.Store(self.hload(s, d, 'dom'), k, z3.BoolVal(False)))
+                self.hstore(s, d, 'size', self.hload(s, d, 'size') - 1)
+                # fact true of every real set, restated for the new state: len >= 0, and len == 0 iff no member
+                xq = z3.Const(s.fresh.name('xs'), d.cls.k.sort())
+                nd, ns = self.hload(s, d, 'dom'), self.hload(s, d, 'size')
+                s = s.assume(z3.And(ns >= 0, (ns == 0) == z3.ForAll([xq], z3.Not(z3.Select(nd, xq)))))
+                self.trusted.add('builtin set: len(s) >= 0 and len(s) == 0 iff s has no member')
+                out.append((SNone(), s))
+            else:
+                out.append((SExc('KeyError', args[0]), s))
+        return out
+
+    def sm_contains(self, d, args, kwargs, st, node):
+        return [(SBool(z3.Select(self.hload(st, d, 'dom'), self.coerce(st, args[0], d.cls.k))), st)]
+
+    def bi_set(self, args, kwargs, st, node):
+        if not args:
+            return [(SLit('set', []), st)]
+        raise Unsupported('set(iterable)')
 
     # lists
     def lm_append(self, l, args, kwargs, st, node):
